@@ -124,12 +124,24 @@ func genCase(t *rapid.T, nodeFailure bool) Case {
 		// the dying session may itself be subscribed to its will topic: it must not get it
 		steps = append(steps, sim.Step{Op: "sub", C: 0, Filters: []string{"#"}, QoS: []int{0}})
 	}
+	if rapid.IntRange(0, 2).Draw(t, "successor") == 0 {
+		// the dying session's client id is taken over by another connection, which leaves again
+		// before the dying session ends: the dying session was displaced but never told (it does
+		// not ping), its identifier resolves to nothing when it finally ends without DISCONNECT —
+		// its will is due
+		cNew := c.Clients
+		c.Clients++
+		steps = append(steps, sim.Step{Op: "connect", C: cNew, Node: rapid.IntRange(0, c.Nodes-1).Draw(t, "successorNode"), ClientID: "dying", KeepAlive: 6000, MP: willMP})
+		steps = append(steps, sim.Step{Op: rapid.SampledFrom([]string{"disconnect", "close"}).Draw(t, "successorEnd"), C: cNew})
+		c.Cause = "successor-left+"
+	}
 	causes := []string{"close", "timeout", "protocol", "disconnect", "disconnect+close"}
 	if nodeFailure {
 		causes = []string{"failnode", "failnode", "disconnect+failnode", "close+failnode"}
 	}
-	c.Cause = rapid.SampledFrom(causes).Draw(t, "cause")
-	switch c.Cause {
+	cause := rapid.SampledFrom(causes).Draw(t, "cause")
+	c.Cause += cause
+	switch cause {
 	case "close":
 		steps = append(steps, sim.Step{Op: "close", C: 0})
 	case "timeout":
